@@ -115,13 +115,25 @@ Definition has_negation (o : opk) : bool :=
 Definition negate_filter (f : vfilter) : vfilter := mkVF (negate_op (vf_op f)) (vf_field f) (vf_fty f) (vf_arg f).
 
 (* the right operand cannot come from a missing @optional scope: a variable, or a tag on a property of
-   the vertex being filtered itself *)
+   the vertex being filtered itself (and a binary operator has a right operand at all) *)
 Definition arg_local (vid : N) (f : vfilter) : bool :=
   match vf_arg f with
-  | None | Some (AVar _ _) => true
+  | None => opk_unary (vf_op f)
+  | Some (AVar _ _) => true
   | Some (ATag (FRContext cf)) => N.eqb (cf_vid cf) vid
   | Some (ATag (FRFold _)) => false
   end.
+
+(* no edge of this step list leads (back) to `vid` *)
+Definition never_entered (vid : N) (ss : list step) : bool :=
+  forallb (fun s => match s with SEdge e => negb (N.eqb (e_to e) vid) | SFold _ _ => true end) ss.
+
+(* the operator of `f` does not panic on the operands it meets at vertex (vid, ty) (C07 / C09 say when) *)
+Definition filter_no_panic (re : string -> string -> option bool) (g : graph) (args : list (string * fv))
+           (vid : N) (ty : string) (f : vfilter) : Prop :=
+  forall s vs ss imp a r,
+    option_map (arg_value g args vs ss imp a vid ty (Some s)) (vf_arg f) = Some (TSome r) ->
+    exists b, apply_tagged re (vf_op f) (g_prop g ty (vf_field f) s) (Some r) true = Ok b.
 
 (* ---- 7. renaming outputs (everywhere, including inside folds and the fold-count outputs) ---- *)
 Definition rename_hdr (rho : string -> string) (h : fold_hdr) : fold_hdr :=
@@ -139,9 +151,31 @@ Fixpoint rename_comp (rho : string -> string) (c : ir_component) {struct c} : ir
                  end) ss)
              (map (fun o => (rho (fst o), snd o)) outs)
   end.
+Fixpoint rename_steps (rho : string -> string) (ss : list step) : list step :=
+  match ss with
+  | [] => []
+  | SEdge e :: r => SEdge e :: rename_steps rho r
+  | SFold h sub :: r => SFold (rename_hdr rho h) (rename_comp rho sub) :: rename_steps rho r
+  end.
 Definition rename_row (rho : string -> string) (r : list (string * fv)) : list (string * fv) :=
   map (fun kv => (rho (fst kv), snd kv)) r.
 (* r' is r with every key n renamed to rho n (and nothing else) *)
 Definition row_renamed (rho : string -> string) (r' r : list (string * fv)) : Prop :=
   (forall n, lookup_str (rho n) r' = lookup_str n r) /\
   (forall m, (forall n, m <> rho n) -> lookup_str m r' = None).
+
+(* ---- `edge(lo: k)` against `edge` + `id @filter(op: ">=", value: ["$p"])` (harness world.rs: the
+   property "id" of a vertex is its number) ---- *)
+Definition id_ge_filter (p : string) (fty t : ty) : vfilter :=
+  mkVF GreaterThanOrEqual "id" fty (Some (AVar p t)).
+(* edge parameters only filter the neighbour list (Graph.v datasets: params_keep) *)
+Definition params_filter_nbrs (g : graph) : Prop :=
+  forall ty name ps v, g_nbrs g ty name ps v = filter (params_keep ps) (g_nbrs g ty name [] v).
+(* every vertex that occurs as a neighbour in the dataset carries its number as "id" *)
+Definition ds_nbr_ids (d : dataset) : list N := flat_map (fun ve => flat_map snd (snd ve)) (d_edges d).
+Definition ds_ids_ok (d : dataset) : bool :=
+  forallb (fun n => match int_val (ds_prop d "" "id" n) with Some z => Z.eqb z (Z.of_N n) | None => false end)
+          (ds_nbr_ids d).
+(* every property value of the dataset is a well-formed FieldValue *)
+Definition ds_props_wf (d : dataset) : bool :=
+  forallb (fun vp => forallb (fun kv => wf (snd kv)) (snd vp)) (d_props d).
